@@ -29,10 +29,10 @@ Proof. exact request_blocked_iff. Qed.
 Print Assumptions C18_request_block_iff.
 
 (* a response that ends interrupted (phase 3, phase 4, response limit with Reject) delivers no body
-   byte over net/http's writer, whatever the handler wrote or flushed before and after *)
-Theorem C18_response_block : forall cfg body ops,
-  let r := wrap_handler cfg true body ops in
-  r_invoked r = true -> r_intr r <> None -> cl_body (client_of true (r_ds r)) = [].
+   byte, over every writer, whatever the handler wrote or flushed before and after *)
+Theorem C18_response_block : forall cfg sk body ops,
+  let r := wrap_handler cfg sk body ops in
+  r_invoked r = true -> r_intr r <> None -> cl_body (client_of sk (r_ds r)) = [].
 Proof. exact response_block_wrap. Qed.
 Print Assumptions C18_response_block.
 
@@ -93,18 +93,10 @@ Theorem C18_informational_status_refuted : exists cfg body ops,
 Proof. exact informational_status_refuted. Qed.
 Print Assumptions C18_informational_status_refuted.
 
-(* pass-through without the no_late_headers guard fails: a header set after WriteHeader is sent *)
+(* F53 c18-late-header-visible: pass-through without the no_late_headers guard fails *)
 Theorem C18_late_header_refuted : exists cfg body ops k,
   r_intr (wrap_handler cfg true body ops) = None /\
   h_get k (cl_headers (client_of true (r_ds (bare_handler true body ops)))) = [] /\
   h_get k (cl_headers (client_of true (r_ds (wrap_handler cfg true body ops)))) <> [].
 Proof. exact late_header_refuted. Qed.
 Print Assumptions C18_late_header_refuted.
-
-(* C18_response_block fails for a writer that does not enforce Content-Length *)
-Theorem C18_response_block_lenient_refuted : exists cfg body ops,
-  let r := wrap_handler cfg false body ops in
-  r_invoked r = true /\ r_intr r = Some (mkintr ADeny 403) /\
-  cl_status (client_of false (r_ds r)) = 403 /\ cl_body (client_of false (r_ds r)) = [83; 69; 67].
-Proof. exact response_block_lenient_refuted. Qed.
-Print Assumptions C18_response_block_lenient_refuted.
